@@ -13,7 +13,7 @@ ap.add_argument("--tier", default="quick")
 ap.add_argument("--check", help="run this property's check instead (default: pid)")
 ap.add_argument("--skip-tests", action="store_true")
 a = ap.parse_args()
-src = a.src or os.path.join(V, "seeded", a.pid)
+src = os.path.abspath(a.src) if a.src else os.path.join(V, "seeded", a.pid)
 scratch = tempfile.mkdtemp(prefix="vt-seed-", dir="/tmp")
 res = {"property": a.pid, "source": src}
 try:
